@@ -71,6 +71,8 @@ def do_op(w, cfg, op):
             arr = _strided(arr)
         elif op.get("layout") == "as_complex":
             arr = _as_native_complex(cfg, arr)
+        elif op.get("layout") == "flat_iq" and cfg.cstyle == "interleaved" and cfg.nsub == 1:
+            arr = arr.reshape(-1)   # I/Q as one flat real array of length 2N (np.fromfile of an sc16 stream)
         if op["rel"] is None:
             return int(w.rf_write(arr))
         return int(w.rf_write(arr, op["rel"]))
